@@ -52,6 +52,19 @@ T1 = 'memref<64xi32, "L1">'
 T3 = 'memref<64xi32, "L3">'
 T1L = 'memref<64xi32, #tsl.tsl<[4, 16] -> (16, 1)>, "L1">'
 ELTS = {"i8": 8, "i16": 16, "i32": 32, "i64": 64}
+FLOATS = {"f16": 16, "f32": 32, "f64": 64}  # float constants / globals: integer-valued data (exact in every float type)
+
+
+def el_hi(el):
+    return 1024 if el in FLOATS else 1 << (ELTS[el] - 1)
+
+
+def lit(v, el):
+    return f"{v}.0" if el in FLOATS else str(v)
+
+
+def pick_el(rng):
+    return rng.choice(list(ELTS) + list(FLOATS))
 
 
 # ------------------------------------------------------------------------------------------------
@@ -134,8 +147,8 @@ def gen_const(rng, big=False):
             n *= s
         if n <= 2048:
             break
-    el = rng.choice(list(ELTS))
-    hi = 1 << (ELTS[el] - 1)
+    el = pick_el(rng)
+    hi = el_hi(el)
     data = [rng.randrange(-hi, hi) if rng.random() < 0.5 else i % hi for i in range(n)]
     return {"kind": "const", "ts": ts, "offset": rng.choice([0, 0, 0, 3]), "shape": shape, "el": el, "data": data}
 
@@ -202,13 +215,16 @@ def mk_tsl(ts, offset):
 
 def el_type(el):
     from xdsl.dialects import builtin
+    if el in FLOATS:
+        return {"f16": builtin.Float16Type, "f32": builtin.Float32Type, "f64": builtin.Float64Type}[el]()
     return builtin.IntegerType(ELTS[el])
 
 
 def impl_const(case):
     from snaxc.transforms.realize_memref_casts import transform_constant
     from xdsl.dialects.builtin import DenseIntOrFPElementsAttr, TensorType
-    attr = DenseIntOrFPElementsAttr.from_list(TensorType(el_type(case["el"]), case["shape"]), case["data"])
+    attr = DenseIntOrFPElementsAttr.from_list(TensorType(el_type(case["el"]), case["shape"]),
+                                              [float(v) for v in case["data"]] if case["el"] in FLOATS else case["data"])
     import warnings
     with warnings.catch_warnings():
         warnings.simplefilter("ignore")
@@ -226,11 +242,11 @@ def layout_text(ts, offset):
     return ", ".join(parts) + (f", offset: {offset}" if offset else "")
 
 
-def nested_literal(vals, shape):
+def nested_literal(vals, shape, el="i32"):
     if len(shape) <= 1:
-        return "[" + ", ".join(str(v) for v in vals) + "]"
+        return "[" + ", ".join(lit(v, el) for v in vals) + "]"
     n = len(vals) // shape[0]
-    return "[" + ", ".join(nested_literal(vals[i * n:(i + 1) * n], shape[1:]) for i in range(shape[0])) + "]"
+    return "[" + ", ".join(nested_literal(vals[i * n:(i + 1) * n], shape[1:], el) for i in range(shape[0])) + "]"
 
 
 def glob_src(case):
@@ -239,7 +255,7 @@ def glob_src(case):
     (what set-memory-space + set-memory-layout produce for weights)."""
     shape = "x".join(str(s) for s in case["shape"])
     el = case["el"]
-    vals = ", ".join(str(v) for v in case["data"])
+    vals = ", ".join(lit(v, case["el"]) for v in case["data"])
     root = case.get("root", "init")
     if case.get("strided"):
         lay = f"strided<[{', '.join(str(x) for x in case['strided'])}]>"
@@ -259,7 +275,7 @@ def glob_src(case):
     %2 = "snax.layout_cast"(%1) : ({t1}) -> {t2}
     linalg.generic {{indexing_maps = [{ident}, {ident}, {ident}], iterator_types = [{", ".join(['"parallel"'] * rank)}]}} ins(%a, %2 : {ta}, {t2}) outs(%b : {ta}) attrs = {{tag = 1}} {{
     ^bb0(%x: {el}, %y: {el}, %z: {el}):
-      %m = arith.muli %x, %y : {el}
+      %m = {'arith.mulf' if el in FLOATS else 'arith.muli'} %x, %y : {el}
       linalg.yield %m : {el}
     }}'''
     else:
@@ -268,7 +284,7 @@ def glob_src(case):
     "test.op"(%1) : ({t2}) -> ()'''
     glob = ""
     if root == "const":
-        get = f"    %0 = arith.constant dense<{nested_literal(case['data'], case['shape'])}> : {t0}"
+        get = f"    %0 = arith.constant dense<{nested_literal(case['data'], case['shape'], el)}> : {t0}"
     else:
         init = f"initial_value = dense<[{vals}]> : tensor<{len(case['data'])}x{el}>" if root == "init" else "initial_value"
         glob = f'  "memref.global"() <{{sym_name = "g", type = {t0}, {init}, sym_visibility = "private"}}> : () -> ()\n'
@@ -1430,8 +1446,8 @@ def gen_subg(rng):
     for x in shape:
         n *= x
     init = rng.random() < 0.6
-    el = rng.choice(["i8", "i32"])
-    hi = 1 << (ELTS[el] - 1)
+    el = pick_el(rng)
+    hi = el_hi(el)
     return {"kind": "subg", "ts": ts, "tile": tile, "shape": shape, "subs": subs, "el": el, "direct_use": rng.random() < 0.1,
             "data": [i % hi for i in range(n)] if init else None}
 
@@ -1448,7 +1464,7 @@ def subg_src(case):
         acc *= x
     g0 = f"memref<{sh}x{el}>"
     init = "initial_value" if case["data"] is None else \
-        f"initial_value = dense<{nested_literal(case['data'], shape)}> : tensor<{sh}x{el}>"
+        f"initial_value = dense<{nested_literal(case['data'], shape, el)}> : tensor<{sh}x{el}>"
     lines = [f'    %g = "memref.get_global"() <{{name = @g}}> : () -> {g0}']
     for i, sv in enumerate(case["subs"]):
         lin = sum(o * r for o, r in zip(sv["off"], rs))
